@@ -509,6 +509,121 @@ pub fn sweep_leap_long_tables(cyc: &Cycle, rec: &Recorder, thorough: bool) -> Ta
     tl
 }
 
+/// table lengths and time distributions beyond the per-length sweep: every multiple of 64 up to 2048, 2^k - 1, 2^k, 2^k + 1 up
+/// to 2^16, in six time distributions (uniform; uniform behind one entry at the far end of the range, as zic's "Big Bang"
+/// entry; uniform in front of one far entry; two clusters of different density; geometric spacing; adjacent seconds). A search
+/// strategy that depends on the length (pages, blocks) or on the values (interpolation) is exercised at its own boundaries.
+/// Zones without leap seconds: the expected answer at t_i - 1 / t_i / t_i + 1 follows from the construction (type of entry
+/// i - 1 resp. i), so every entry of every table is probed without a quadratic model scan.
+pub fn sweep_table_shapes(rec: &Recorder, thorough: bool) -> Tally {
+    let mut lens: Vec<usize> = (1..=32).map(|k| k * 64).collect();
+    for k in 8..=16u32 {
+        for d in [-1i64, 0, 1] {
+            lens.push(((1i64 << k) + d) as usize);
+        }
+    }
+    lens.extend([300, 600, 601, 1000, 1500, 3000]);
+    if thorough {
+        lens.extend((257..=1100).step_by(1));
+        lens.extend([100_000, 262_144, 1_000_000]);
+    }
+    lens.sort();
+    lens.dedup();
+    let mut work: Vec<(usize, u8, bool)> = vec![];
+    for &n in &lens {
+        for dist in 0..6u8 {
+            for with_rule in [false, true] {
+                if n > 5000 && (with_rule || dist >= 4) && !thorough {
+                    continue;
+                }
+                work.push((n, dist, with_rule));
+            }
+        }
+    }
+    let tl = work
+        .par_iter()
+        .map(|&(n, dist, with_rule)| {
+            let mut tl = Tally::default();
+            let step: i64 = 15_778_800; // half a year
+            let mut times: Vec<i64> = match dist {
+                0 => (0..n).map(|i| i as i64 * step).collect(),
+                1 => std::iter::once(-(1i64 << 59)).chain((1..n).map(|i| i as i64 * step)).collect(),
+                2 => (0..n - 1).map(|i| i as i64 * step).chain(std::iter::once(1i64 << 59)).collect(),
+                3 => (0..n).map(|i| if i < n / 2 { i as i64 * 7 } else { 1_000_000_000 + (i - n / 2) as i64 * step }).collect(),
+                4 => {
+                    let mut v: Vec<i64> = vec![];
+                    let mut x: i64 = -4_000_000_000_000_000;
+                    for i in 0..n {
+                        v.push(x);
+                        // spacing grows by ~0.1 % per entry, capped
+                        x = x.saturating_add(1 + (1i64 << (i * 40 / n.max(1)).min(40)));
+                    }
+                    v
+                }
+                _ => (0..n).map(|i| 2_000_000_000 + i as i64).collect(),
+            };
+            times.dedup();
+            let n = times.len();
+            let mtypes = [MType::new(-18000, false, Some("EST")), MType::new(-14400, true, Some("EDT")), MType::new(3600, false, Some("CET"))];
+            let types: Vec<tz::timezone::LocalTimeType> = mtypes.iter().map(ltt).collect();
+            let idx = |i: usize| (i + 1) % 3;
+            let trans: Vec<tz::timezone::Transition> = times.iter().enumerate().map(|(i, &t)| tz::timezone::Transition::new(t, idx(i))).collect();
+            let rule = if with_rule { Some(tz::timezone::TransitionRule::Fixed(types[idx(n - 1)])) } else { None };
+            let case = |t: i64| json!({"kind":"table_shape","length":n,"distribution":dist,"fixed_rule":with_rule,"t":t});
+            let r = guard(|| {
+                let mut tl = Tally::default();
+                let zr = match tz::timezone::TimeZoneRef::new(&trans, &types, &[], &rule) {
+                    Ok(z) => z,
+                    Err(e) => {
+                        rec.violation("table_shapes", case(0), json!("constructor accepts"), json!(err_name(&e)));
+                        return tl;
+                    }
+                };
+                tl.zones += 1;
+                for i in 0..n {
+                    for d in [-1i64, 0, 1] {
+                        let t = times[i] + d;
+                        // entry in force at t: the last entry with time <= t
+                        let j: Option<usize> = if d < 0 { if i > 0 && times[i - 1] <= t { Some(i - 1) } else if i > 0 { None } else { None } } else { Some(if d > 0 && i + 1 < n && times[i + 1] <= t { i + 1 } else { i }) };
+                        let j = if d < 0 && i > 0 && times[i - 1] > t { continue } else { j };
+                        tl.evals += 1;
+                        let exp: Result<&MType, ()> = match j {
+                            None => Ok(&mtypes[0]),
+                            Some(j) if j + 1 == n && !with_rule => Err(()),
+                            Some(j) => Ok(&mtypes[idx(j)]),
+                        };
+                        let got = zr.find_local_time_type(t);
+                        let ok = match (&exp, &got) {
+                            (Ok(m), Ok(l)) => same_type(l, m),
+                            (Err(()), Err(TzError::NoAvailableLocalTimeType)) => true,
+                            _ => false,
+                        };
+                        if !ok {
+                            rec.violation("table_shapes", case(t), json!(format!("{:?}", exp.map(|m| (m.off, m.dst)))), json!(format!("{:?}", got.map(type_json))));
+                        } else if let Ok(m) = exp {
+                            tl.nontrivial += (d == 0) as u64;
+                            if crate::find::in_supported(t) {
+                                match DateTime::from_timespec(t, 0, zr) {
+                                    Ok(dt) if dt.local_time_type().ut_offset() == m.off && dt.unix_time() == t => {}
+                                    other => rec.violation("table_shapes", case(t), json!({"from_timespec offset": m.off}), json!(format!("{:?}", other.map(|d| d.local_time_type().ut_offset())))),
+                                }
+                            }
+                        }
+                    }
+                }
+                tl
+            });
+            match r {
+                Ok(t2) => tl = tl.merge(t2),
+                Err(m) => rec.violation("table_shapes", case(0), json!("no panic"), json!(m)),
+            }
+            tl
+        })
+        .reduce(Tally::default, Tally::merge);
+    rec.sub("table_shapes", json!({"lengths": lens.len(), "max_length": lens.last(), "distributions": 6, "zones": tl.zones, "lookups": tl.evals}));
+    tl
+}
+
 /// long call histories on one thread (state recycled by a wrapping counter or a fixed-capacity table): a lookup in zone A, N
 /// lookups in zone B, a different lookup in zone A, for N = 2^k - 2 .. 2^k + 1, k = 4..=17; A has three types, B two
 /// the clock route: `find_current_local_time_type`, `DateTime::now`, `UtcDateTime::now` under every answer of the system clock
@@ -742,6 +857,7 @@ pub fn run(args: &Args) -> i32 {
     let total = if args.digest_mode { total } else { total.merge(sweep_clock_route(&cyc, &rec)) };
     let total = total.merge(sweep_leap_extreme_positions(&cyc, &rec));
     let total = if args.digest_mode { total } else { total.merge(sweep_leap_long_tables(&cyc, &rec, thorough)) };
+    let total = if args.digest_mode { total } else { total.merge(sweep_table_shapes(&rec, thorough)) };
     // one-signed leap tables of 2.4 million records (accumulated correction >= record spacing), shared with the C12 engine
     let total = if args.digest_mode {
         total
